@@ -191,3 +191,57 @@ def run(F, R):
                 if not b.is_unreachable_block(other):
                     arms |= set(vmap.values())
         R.check({"Text", "Close"} <= arms, "R25.6", "integration-maps-close:" + crate, crate, "arms %s" % sorted(arms), "%s does not map WsMessage::%s" % (crate, sorted({"Text", "Close"} - arms)))
+
+    R.rule("R25.7", "no lost wake-up: the loop that drains the inbound client stream (`while let Poll::Ready(m) = stream.poll_next(cx)`) is left only (a) when that "
+                    "stream returned Pending (its waker is registered), (b) by returning an item, or (c) after storing a future into one of the session's pollable "
+                    "slots (init_fut / ping_fut), which the code after the loop polls — a bare `break` on a consumed message would return Pending with no waker "
+                    "registered and the connection would stop making progress")
+    from common import sccs, loop_exit_edges
+    def polled_fields(c):
+        o, passed = trace(pn, c.args[0])
+        fs = [x for k, x in o if k == "field"]
+        for p_ in passed:
+            if p_.callee and re.search(r"pin::\{impl#\d+\}::(new|new_unchecked|as_mut)$", p_.callee) and p_.args:
+                fs += [x for k, x in trace(pn, p_.args[0])[0] if k == "field"]
+        return fs
+
+    inbound = [c for c in pn.calls() if c.callee and re.search(r"Stream.*::poll_next$|stream::\{impl#\d+\}::poll_next$", c.declared or c.callee) and
+               any(".stream" in x and ".streams" not in x for x in polled_fields(c))]
+    R.floor("R25.7", "inbound stream polls", len(inbound), 1)
+    slot_stores = set()
+    for bb, st in pn.all_stmts():
+        lhs = st[0]
+        if len(lhs) >= 2 and lhs[-1] == "*" and st[1][0] == "use" and st[1][1][0] in ("c", "m"):
+            vty = pn.locals[st[1][1][1][0]]
+            if re.search(r"Option<.*Pin<.*Box<dyn .*Future", vty):
+                # the stored value must be a Some(..) built just before (arming), not a None (disarming)
+                vdefs = pn.defs_of_local(st[1][1][1][0])
+                if any(d_[1][1][0] == "agg" and d_[1][1][3] == "Some" for d_ in vdefs):
+                    slot_stores.add(bb)
+    for ib in inbound:
+        comp = [c_ for c_ in sccs(pn) if ib.bb in c_]
+        if not comp:
+            R.violation("R25.7", "inbound-loop:not-found", ib.where(), "the inbound poll is not inside a loop")
+            continue
+        comp = comp[0]
+        ready_sw = None
+        pend_src = set()
+        for (sbb, place, adt, arms, other, vmap) in pn.enum_switches(r"core::task::poll::Poll$"):
+            if sbb in comp and any(c is ib or c.bb == ib.bb for c in trace(pn, pn.term(sbb)[1])[1]):
+                ready_sw = (sbb, arms.get("Ready"))
+                pend_src.add(sbb)
+        bad = []
+        for s_, d_ in loop_exit_edges(pn, comp):
+            if s_ in pend_src:
+                continue
+            # from this exit, Poll::Pending may only be produced after a pollable slot was armed (or not at all: the exit returns an item)
+            start = ready_sw[1] if ready_sw else ib.bb
+            if s_ not in pn.reachable(start, avoid=slot_stores):
+                continue  # a slot was armed before leaving
+            after = pn.reachable(d_, avoid=slot_stores)
+            pend_after = [a[0] for a in find_aggs(pn, r"core::task::poll::Poll$") if a[1][3] == "Pending" and a[0] in after]
+            if pend_after:
+                bad.append((s_, d_))
+        R.check(ready_sw is not None and not bad, "R25.7", "inbound-loop:left-only-when-pending-or-with-a-pollable", ib.where(), "%d slot stores; exits checked" % len(slot_stores),
+                "the inbound message loop can be left through bb%s after a message was consumed, without returning an item and without arming init_fut/ping_fut: poll_next "
+                "can then return Pending although no waker was registered (e.g. a stop/complete for an unknown id stalls the connection)" % sorted({s for s, _ in bad}))
